@@ -14,9 +14,9 @@ func init() {
 			"the linear model for prefixes is net/netip Prefix.Contains (an IPv4-mapped IPv6 address is an IPv6 address)",
 		}, commonAssume...),
 		Parts: []partSpec{
-			{Name: "domain", Flavour: "plain", TimeoutQ: m10, TimeoutT: 2 * m60, Weight: 10, Procs: 10},
-			{Name: "port", Flavour: "plain", TimeoutQ: m10, TimeoutT: m60, Weight: 3, Procs: 3},
-			{Name: "prefix", Flavour: "plain", TimeoutQ: m10, TimeoutT: m60, Weight: 3, Procs: 3},
+			{Name: "domain", Flavour: "plain", TimeoutQ: m10, TimeoutT: 3 * m60, Weight: 12, Procs: 12},
+			{Name: "port", Flavour: "plain", TimeoutQ: m10, TimeoutT: m60, Weight: 2, Procs: 2},
+			{Name: "prefix", Flavour: "plain", TimeoutQ: m10, TimeoutT: m60, Weight: 2, Procs: 2},
 		},
 	}
 }
